@@ -16,6 +16,14 @@ def contents():
     m = {c: open(os.path.join(d, c + ".sol"), "rb").read() for c in ("c1", "c2", "c3", "c4", "c5", "c6", "c8", "c9", "c10", "c11")}
     # a file of file-level items only (no contract, library or interface anywhere in its text)
     m["c12"] = open(os.path.join(ROOT, "corpus", "free_items.sol"), "rb").read()
+    m["c14"] = open(os.path.join(d, "c14.sol"), "rb").read()
+    m["c15"] = open(os.path.join(d, "c15.sol"), "rb").read()
+    # files of some 70 KB in which every read-buffer boundary (4096, 8192, 16384, 65536 ...) falls inside a run of 3-byte
+    # characters, in three alignments: a block boundary splits a character in at least two of them
+    for k in range(3):
+        run = ("\u8a9e" * 40 + "\n").encode("utf-8")
+        body = b"// SPDX-License-Identifier: MIT\npragma solidity ^0.8.17;\n" + b"x" * 0 + b"/*" + b"a" * k + b"\n" + run * 600 + b"*/\n"
+        m["w%d" % k] = body + m["c1"].split(b"\n", 2)[2]
     # re-laid-out copies: the same words, the line breaks elsewhere
     m["c1r"] = relaid(m["c1"])
     m["c2r"] = relaid(m["c2"])
